@@ -29,6 +29,9 @@ def check(run):
     run.floor('FDIFF', 'fractional-difference kernels (config full)', nf, 2)
     for cfg in configs(run):
         F = run.facts(cfg)
+        # helpers this property stands on (rule sets owned by other properties, see common.deps)
+        from common import deps as _deps
+        _deps(run, F, 'drivers', 'isnone', 'accessors', 'casts')
         ks = [k for k in find_kernels(F) if k.fn.file.endswith('tea-rolling/src/features.rs')]
         run.floor('ACC', 'rolling kernels in features.rs', len(ks), 16)
         nacc = 0
@@ -50,6 +53,9 @@ def check(run):
         run.rule('CAS.form', casrules.RULE)
         n = casrules.check_rolling(run, run.facts('base'), ('features.rs',))
         run.floor('CAS.form', 'closed forms compared with their reference', n, 14)
+    # every container the generic code can be instantiated with hands out its elements in logical order
+    from common import dep_backends as _dep_backends
+    _dep_backends(run)
     return run.finish(
         'other',
         'Structural necessary conditions for "the window state never drifts": for each of the '
